@@ -282,7 +282,7 @@ func H_swap() {
 	if vParamInt("env") == 1 {
 		// commutation must also hold when options are backed by environment variables
 		cfg.envAll = true
-		vEnvCandidates = 15
+		vEnvCandidates = vParamInt("envmask")
 		vSymbolicEnv()
 	}
 	o1 := vRunTable(cfg, a1)
